@@ -287,7 +287,9 @@ def norm_dump(objs):
              'colls': [[r, bool(s), sorted(l)] for r, s, l in o['colls']]} for o in objs]
 
 
-MODEL_ERRS = {'OperationWithDeletedObjectError', 'ValueError', 'TypeError', 'ConstraintError', 'AssertionError', 'RecursionError'}
+# exception classes the model can predict; anything else (key clashes, internal asserts of bookkeeping the model does not have)
+# is a failure cause outside the model: the engine then checks that both ends still agree and nothing changed, and skips the call in the model
+MODEL_ERRS = {'OperationWithDeletedObjectError', 'ValueError', 'TypeError', 'ConstraintError', 'RecursionError'}
 
 
 def classify(w, op, err, p, key, q, prev):
@@ -413,7 +415,9 @@ def memory_phase(ctx, rng, nhist, nops):
                     op = dict(op, skip_model=True)
                 ops.append(op); real.append((err, snap, tag))
                 prev = snap
-            if not violated and rng.random() < 0.6:
+            if not violated and prev and dangling(w, prev):
+                ctx.count('reload:skipped-live-object-references-deleted-object'); rollback()
+            elif not violated and rng.random() < 0.6:
                 try:
                     commit()
                     pks = [(o.id if w.alive(o) else None) for o in w.objs]
@@ -544,8 +548,20 @@ def reload_phase(ctx, rng, w, ops, real, pks):
             if any(isinstance(x, int) and x < len(pks) and pks[x] is None for x in op.get('items', []) + ([op['v']] if op.get('v') is not None else [])): continue
             err = w.apply(op)
             snap = full_read(w)
-            more.append((op, err, snap))
             ctx.count('reload:op:%s:%s' % (op['k'], err or 'ok'))
+            if err is not None and err not in MODEL_ERRS:
+                # failure cause outside the model: both ends must still agree and nothing may have changed
+                before = more[-1][2] if more else None
+                bad = ends_disagree(w, snap) if snap is not None else []
+                if bad:
+                    p, key, q, why = bad[0]
+                    ctx.violation('after a failed call on reloaded objects the two ends disagree', {'schema': w.schema, 'ops': ops, 'commit_reload_then': [o for o, _, _ in more] + [op]},
+                                  observed={'p': p, 'attr': list(key), 'q': q, 'why': why, 'outcome': err}, key='reload-call-ends-disagree:' + classify(w, op, err, p, key, q, before))
+                    break
+                ctx.count('reload:failure-outside-model:%s:%s' % (err, 'state-unchanged' if (before is None or snap is None or norm_dump(before) == norm_dump(snap)) else 'STATE-CHANGED'))
+                if before is not None and snap is not None and norm_dump(before) != norm_dump(snap): break
+                continue
+            more.append((op, err, snap))
         if more and ctx.driver.ok:
             out = ctx.driver('C12', [{'op': 'run', 'schema': w.model_schema, 'ops': [model_op(o) for o in ops] + [model_op(o) for o, _, _ in more]}])[0]
             steps = out.get('steps')
@@ -639,17 +655,44 @@ R_REFUSED_DELETE = {     # repaired in /repo (fix: a refused delete emptied the 
                                    {'kind': 'm2o', 'sym': False, 'a': S(0, coll=True, casc=False), 'b': S(2, req=True)}]},
     'ops': [{'k': 'create', 'e': 0, 'vals': []}, {'k': 'create', 'e': 1, 'vals': [[[0, True], {'coll': [0]}]]},
             {'k': 'create', 'e': 2, 'vals': [[[1, True], {'ref': 0}]]}, {'k': 'delete', 'o': 0}]}
-WITNESSES = [('cascade-reassign', W_CASCADE_REASSIGN, 'one-to-one-cascade-reassign'), ('self-link', W_SELF_LINK, 'symmetric-one-to-one-self-link')]
-REGRESSIONS = [('refused-delete', R_REFUSED_DELETE)]
+WITNESSES = []   # (name, history, key) of `_full_false` theorems — none at present: all three defects found by this check were repaired in /repo
+W_IS_EMPTY = {           # repaired (fix: is_empty() on a symmetric many-to-many loaded the object itself): exercised by reload_regression
+    'schema': {'nent': 1, 'rels': [{'kind': 'symm', 'sym': True, 'a': S(0, coll=True)}]},
+    'ops': [{'k': 'create', 'e': 0, 'vals': []}, {'k': 'create', 'e': 0, 'vals': [[[0, False], {'coll': [0]}]]}]}
+REGRESSIONS = [('refused-delete', R_REFUSED_DELETE), ('cascade-reassign', W_CASCADE_REASSIGN), ('self-link', W_SELF_LINK)]
+
+
+def reload_regression(ctx):
+    """symmetric many-to-many: is_empty() in a fresh session must not make the object a member of its own collection"""
+    wi = W_IS_EMPTY
+    w = World(wi['schema'])
+    with db_session:
+        for op in wi['ops']: w.apply(op)
+        commit()
+        pks = [o.id for o in w.objs]
+    with db_session:
+        b = w.classes[0][pks[1]]
+        name = w.names[(0, False)]
+        empty = getattr(b, name).is_empty()
+        inside = b in getattr(b, name)
+        try: content = sorted(x.id for x in getattr(b, name).copy())
+        except Exception as e: content = type(e).__name__
+        ctx.case({'regression': 'symmetric-is-empty'}, kind='regression')
+        if empty or inside or content != [pks[0]]:
+            ctx.violation('is_empty() on a symmetric many-to-many loads the object itself into its own collection',
+                          {'schema': wi['schema'], 'ops': wi['ops'], 'reads': [[1, [0, False], 'is_empty']]},
+                          observed={'is_empty': empty, 'self in collection': inside, 'copy': content}, expected={'is_empty': False, 'self in collection': False, 'copy': [pks[0]]},
+                          key='reload:loaded-item-not-in-committed-state:symm')
+    w.db.disconnect()
 
 
 def witnesses(ctx):
-    """the witnesses of the `_full_false` theorems are replayed on the real code on every run; repaired defects stay as regression inputs"""
+    """witnesses of `_full_false` theorems (none now) and repaired defects as regression inputs, replayed on the real code on every run"""
     for name, wi, key in WITNESSES:
         v = first_violation(wi['schema'], wi['ops'])
         ctx.case({'witness': name}, nontrivial=True, kind='witness')
         if v is None:
-            ctx.note('witness %s: the real code no longer shows the disagreement (the guard of C12_step could be dropped for this class)' % name)
+            ctx.note('witness %s: the real code no longer shows the disagreement' % name)
             ctx.count('witness-not-reproduced:' + name)
         else:
             ctx.count('witness-reproduced:' + name)
@@ -658,12 +701,19 @@ def witnesses(ctx):
         v = first_violation(wi['schema'], wi['ops'])
         ctx.case({'regression': name}, nontrivial=True, kind='regression')
         if v is not None: report_violation(ctx, wi['schema'], wi['ops'], v[0], v[1], v[2])
+    reload_regression(ctx)
     if ctx.driver.ok:
-        for name, wi in [(n, x) for n, x, _ in WITNESSES] + REGRESSIONS:
+        for name, wi in REGRESSIONS:
             w = World(wi['schema'])
             out = ctx.driver('C12', [{'op': 'run', 'schema': w.model_schema, 'ops': [model_op(o) for o in wi['ops']]}])[0]
+            real = run_history(wi['schema'], wi['ops'])[1]
             w.db.disconnect()
-            ctx.extra.setdefault('witness_model_inv_after_each_call', {})[name] = [st['inv'] for st in out.get('steps', [])]
+            steps = out.get('steps', [])
+            ctx.extra.setdefault('regression_model_inv_after_each_call', {})[name] = [st['inv'] for st in steps]
+            for i, (st, (err, snap)) in enumerate(zip(steps, real)):
+                if (st['err'] or None) != (err or None) or norm_dump(st['objs']) != norm_dump(snap):
+                    ctx.divergence('model and real code differ on a regression input', {'schema': wi['schema'], 'ops': wi['ops'][:i + 1]},
+                                   model=[st['err'], st['objs']], impl=[err, snap]); break
 
 
 def run(ctx):
